@@ -611,6 +611,16 @@ func (c *Refunds) Step(it *Interp, st *StepInfo) {
 		postPool := map[uint64]*mtypes.SendToExternal{}
 		for _, e := range st.Post.Chains[ch].Pool {
 			postPool[e.Id] = e
+			// the party a cancel or an expiry pays back is the one who paid: for a transfer forwarded from another chain, the
+			// sender of the TransferToChain event on that chain (found by the event's unique tx hash in the world's own log)
+			if w := it.W[e.RefundChainId]; w != nil && e.RefundChainId != ch {
+				for _, ev := range w.Events {
+					if t, ok := ev.(*mtypes.TransferToChainEvent); ok && t.TxHash == e.TxHash && !strings.EqualFold(strings.TrimPrefix(e.RefundAddress, "0x"), strings.TrimPrefix(t.Sender, "0x")) {
+						it.Fail("C12", "refund-party-not-the-payer", "%s: transfer %d forwarded from %s was paid by %s and goes to %s, but its refund is recorded for %s", ch, e.Id, e.RefundChainId, t.Sender, e.ExternalRecipient, e.RefundAddress)
+						return
+					}
+				}
+			}
 			// the sweep runs in every EndBlocker: an expired transfer that has something to give back is gone now
 			if it.ExpiredByModel(ch, e) && e.RefundChainId != "" && it.refundValue(ch, e).Sign() > 0 && it.mintable(ch, e) {
 				it.Fail("C12", "expired-not-refunded", "%s: transfer %d created at %d is still unbatched at %d although the timeout %s has passed", ch, e.Id, e.CreatedAt, it.Now, it.timeout())
